@@ -85,6 +85,16 @@ CLAIMS = {
             "only under key.key_id(); sign persists only through its signature-count test or "
             "--ignore-threshold. That `sign` self-verifies is NOT the case today (recorded finding D12).",
             "DESIGN.md §4 C20"),
+    "C09": ("who-may-call query for Transport::fetch + interprocedural value-origin (limit provenance "
+            "through Repository::load -> load_* -> load_delegations and cache.rs) + loop/recursion "
+            "classification over MIR CFG SCCs",
+            "Decides for every fetch site that data is read only through the size-capped adapter and that "
+            "the bound originates from the file's own pinned length (which must apply when present) or "
+            "the configured limit of that role — never from another file's pin; that every loop containing "
+            "a fetch iterates an in-memory collection or is guarded, before the fetch, by version < "
+            "shipped version + max_root_updates. Unbounded recursion over delegation cycles is a recorded "
+            "finding (D3). Wall-clock termination is not decided.",
+            "DESIGN.md §4 C09"),
 }
 
 NOT_YET = {}
